@@ -27,6 +27,44 @@ async fn binary_config(args: Args, data_dir: &std::path::Path) -> Result<Config,
     Ok(c)
 }
 
+static CMDLINES: std::sync::OnceLock<Result<(Vec<String>, Vec<String>), String>> = std::sync::OnceLock::new();
+
+fn cmdlines() -> &'static Result<(Vec<String>, Vec<String>), String> {
+    CMDLINES.get_or_init(crate::props::c19::capture_cmdlines)
+}
+
+/// What the server binary parses from the command line the *real orchestrator* uses for the role
+/// (captured once per run through the stub executable), with this case's sync port, leader
+/// address and instance name substituted for the captured values.
+fn role_args(leader: bool, sync_port: u16, leader_port: u16, name: &str) -> Result<Args, Failure> {
+    use clap::Parser;
+    let (l, f) = cmdlines().as_ref().map_err(|e| Failure::new("c12.cmdlines", "the orchestrator's command lines can be captured", e).sig(json!({"obs": "timeout"})))?;
+    let template = if leader { l } else { f };
+    let mut argv = vec!["worterbuch".to_owned()];
+    let mut it = template.iter();
+    while let Some(a) = it.next() {
+        argv.push(a.clone());
+        match a.as_str() {
+            "--sync-port" | "-s" => {
+                it.next();
+                argv.push(sync_port.to_string());
+            }
+            "--leader-address" | "-l" => {
+                it.next();
+                argv.push(format!("127.0.0.1:{leader_port}"));
+            }
+            "--instance-name" | "-n" => {
+                it.next();
+                argv.push(name.to_owned());
+            }
+            _ => {}
+        }
+    }
+    Args::try_parse_from(&argv).map_err(|e| {
+        Failure::new("c12.cmdline_rejected", "the server binary accepts the command line the orchestrator starts it with", format!("{argv:?}: {e}")).sig(json!({"obs": "c12.cmdline_rejected"}))
+    })
+}
+
 fn regs_to_clients(regs: &[(String, Value)]) -> Vec<Registration> {
     // one Registration per registration key (the order of clients is not fixed; order dependent cases are dropped)
     regs.iter()
@@ -67,7 +105,7 @@ async fn run_case(case: &Case, kfs: &KnownFindings) -> Result<CaseReport, Failur
 
     // the leader and the follower are started the way the orchestrator starts them: role flags on the command line
     let port = free_port();
-    let lcfg = binary_config(Args { leader: true, follower: false, sync_port: Some(port), leader_address: None, instance_name: Some("n0".into()) }, &dir_l).await?;
+    let lcfg = binary_config(role_args(true, port, 0, "n0")?, &dir_l).await?;
     let leader = Server::start(lcfg).await.map_err(|e| Failure::new("c12.leader", "leader starts", e))?;
     wait_for_port(port).await?;
     let mut d = Driver {
@@ -82,9 +120,8 @@ async fn run_case(case: &Case, kfs: &KnownFindings) -> Result<CaseReport, Failur
         kf_shapes: case.with_known_finding_shapes,
     };
     let dir_f2 = dir_f.clone();
-    let fcfg_args = move |p: u16| Args { leader: false, follower: true, sync_port: None, leader_address: Some(format!("127.0.0.1:{p}")), instance_name: Some("n1".into()) };
     // Config::new is async: build the follower configuration up front
-    let fcfg = binary_config(fcfg_args(port), &dir_f2).await?;
+    let fcfg = binary_config(role_args(false, 0, port, "n1")?, &dir_f2).await?;
     let follower_cfg = move |_p: u16| fcfg.clone();
     let mut res: Result<(), Failure> = Ok(());
     let mut joins = 0;
@@ -150,7 +187,7 @@ async fn run_case(case: &Case, kfs: &KnownFindings) -> Result<CaseReport, Failur
 
     // promotion: a new leader on the follower's data directory
     let p2 = free_port();
-    let ncfg = binary_config(Args { leader: true, follower: false, sync_port: Some(p2), leader_address: None, instance_name: Some("n1".into()) }, &dir_f).await?;
+    let ncfg = binary_config(role_args(true, p2, 0, "n1")?, &dir_f).await?;
     let promoted = Server::start(ncfg).await.map_err(|e| Failure::new("c12.promoted", "the promoted node starts", e))?;
     let got = user_state(&promoted).await;
     let stop = promoted.stop().await;
@@ -205,7 +242,14 @@ fn case(max: usize, kf: bool) -> BoxedStrategy<Case> {
 
 pub fn run(cfg: &RunCfg) -> i32 {
     let mut check = Check::new(cfg, "exploration");
-    check.assume("leader, follower and promoted node are in-process servers whose configuration is built exactly like the server binary builds it for the orchestrator's command line (Config::new(Some(Args{..})) with a clean environment), only data directory and endpoints adjusted; the follower is stopped gracefully, as the orchestrator does");
+    check.assume("leader, follower and promoted node are in-process servers whose configuration is built exactly like the server binary builds it: the command lines are those the real orchestrator binary (rebuilt from /repo by ./check) starts the server executable with in leader and follower mode, captured once per run through a stub executable, parsed with the server's own clap definition and given to Config::new with a clean environment; only sync port, leader address, instance name, data directory and endpoints are substituted; the follower is stopped gracefully, as the orchestrator does");
+    match cmdlines() {
+        Ok((l, f)) => check.notes.push(format!("orchestrator command lines: leader {l:?}, follower {f:?}")),
+        Err(e) => {
+            eprintln!("C12: the orchestrator's command lines could not be captured: {e}");
+            return 2;
+        }
+    }
     check.assume("expected state of the promoted node = the follower's user keys at the loss with the grave goods buried and the last wills set of all clients connected to the old leader; registrations whose result depends on the order of clients are dropped");
     let kfs = check.kf.clone();
     let n = cfg.cases(250, 10_000);
